@@ -352,12 +352,15 @@ def run(case):
         # cyclic histories (loading, partial unloading, back to exactly zero, into compression, two steps): every recorded
         # curve point is the analytic point of ITS substep (elastic materials: no path dependence)
         if kind == "uniaxial":
-            for hist, split in (([0.15, 0.3, 0.15, 0.0, -0.1], None), ([0.2, 0.0, 0.2], 2), ([-0.1, 0.0, 0.0, 0.25], 1)):
+            # (usex0: the job is evaluated with a separate top-level container x0 that carries the boundaries -- the composite
+            #  pattern -- instead of the body's own container)
+            for (hist, split), usex0 in itertools.product((([0.15, 0.3, 0.15, 0.0, -0.1], None), ([0.2, 0.0, 0.2], 2), ([-0.1, 0.0, 0.0, 0.25], 1)), (False, True)):
                 mesh, region, twin = build(fam, "distorted", seed, n=n)
                 Fcls = fem.Field if d == 3 else fem.FieldPlaneStrain
                 field = fem.FieldContainer([Fcls(region, dim=d)])
                 body = fem.SolidBody(um, field)
-                bounds, lc = fem.dof.uniaxial(field, clamped=False, move=0.0, axis=0, sym=True)
+                top = fem.FieldContainer([Fcls(region, dim=d)]) if usex0 else field
+                bounds, lc = fem.dof.uniaxial(top, clamped=False, move=0.0, axis=0, sym=True)
                 parts = [hist] if split is None else [hist[:split], hist[split:]]
                 steps = [fem.Step([body], ramp={bounds["move"]: list(pt)}, boundaries=bounds) for pt in parts]
                 seen = []
@@ -366,9 +369,9 @@ def run(case):
                     seen.append(substep.x[0].values.copy())
 
                 job = fem.CharacteristicCurve(steps=steps, boundary=bounds["move"], callback=cb)
-                job.evaluate(verbose=False)
+                job.evaluate(verbose=False, **(dict(x0=top) if usex0 else {}))
                 c.trans += len(hist)
-                sub = f"cyclic={hist}/split={split}"
+                sub = f"cyclic={hist}/split={split}" + ("/x0=separate" if usex0 else "")
                 if len(job.x) != len(hist) or len(job.y) != len(hist) or len(seen) != len(hist):
                     c.bad(sub + "/points", "one curve point per substep", [len(job.x), len(job.y), len(seen)], len(hist))
                     continue
@@ -387,7 +390,6 @@ def run(case):
                 c.close(f"lam={lam}/subdivision-independence/{k}", "final state independent of the ramp subdivision", us[k], us[0], scale=max(np.abs(us[0]).max(), 1e-3))
         return c.result(dict(case=case["key"], levels=list(levels)))
     if kind == "axes":
-        import itertools
 
         fam, mat = case["fam"], case["mat"]
         d = zoo.BASE[fam][1]
